@@ -1019,3 +1019,48 @@ func sitesC11(_ *token.FileSet, _ map[string]*ast.File) (string, error) {
 	b.WriteString("Definition recover_sites : list (bytes * bytes) := [\n  " + strings.Join(recovers, ";\n  ") + "\n].\n")
 	return b.String(), nil
 }
+
+// ---------------- C19: the formatter's element classes ----------------
+func init() { siteTables["C19"] = sitesC19 }
+
+func sitesC19(_ *token.FileSet, _ map[string]*ast.File) (string, error) {
+	fset, files, err := parseRepoPkg(repoDir + "/formatter")
+	if err != nil {
+		return "", err
+	}
+	lists := map[string][]string{}
+	for _, f := range files {
+		for _, d := range f.Decls {
+			fd, ok := d.(*ast.FuncDecl)
+			if !ok || fd.Body == nil {
+				continue
+			}
+			switch fd.Name.Name {
+			case "isVoidElement", "isInlineAtom", "isPhrasingContainer":
+			default:
+				continue
+			}
+			ast.Inspect(fd.Body, func(n ast.Node) bool {
+				cl, ok := n.(*ast.CompositeLit)
+				if !ok {
+					return true
+				}
+				for _, e := range cl.Elts {
+					if s, ok := e.(*ast.SelectorExpr); ok {
+						if id, ok := s.X.(*ast.Ident); ok && id.Name == "atom" {
+							lists[fd.Name.Name] = append(lists[fd.Name.Name], strings.ToLower(s.Sel.Name))
+						}
+					}
+				}
+				return false
+			})
+		}
+	}
+	_ = fset
+	var b strings.Builder
+	b.WriteString("From Coq Require Import List.\nImport ListNotations.\nFrom V Require Import Base.Bytes.\n")
+	b.WriteString("Definition voids : list bytes := " + coqList(lists["isVoidElement"], coqBytes) + ".\n")
+	b.WriteString("Definition inlines : list bytes := " + coqList(lists["isInlineAtom"], coqBytes) + ".\n")
+	b.WriteString("Definition phrasings : list bytes := " + coqList(lists["isPhrasingContainer"], coqBytes) + ".\n")
+	return b.String(), nil
+}
